@@ -11,23 +11,24 @@ import (
 
 func main() {
 	verifio.Main(map[string]verifio.Runner{
-		"arb":      func(f []string) string { return k8s.VerifArb(verifio.KV(f)) },
-		"polst":    func(f []string) string { return k8s.VerifPolicyStatus(verifio.KV(f)) },
-		"eps":      func(f []string) string { return k8s.VerifEps(verifio.KV(f)) },
-		"reseps":   func(f []string) string { return k8s.VerifResEps(verifio.KV(f)) },
-		"refs":     func(f []string) string { return k8s.VerifRefs(verifio.KV(f)) },
-		"crash":    func(f []string) string { return k8s.VerifCrash(verifio.KV(f)) },
-		"lbc":      func(f []string) string { return k8s.VerifLbc(verifio.KV(f)) },
-		"cls":      func(f []string) string { return k8s.VerifClass(verifio.KV(f)) },
-		"injlist":  func(f []string) string { return k8s.VerifInjList(verifio.KV(f)) },
-		"injbase":  func(f []string) string { return k8s.VerifInjBase(verifio.KV(f)) },
-		"injfiles": func(f []string) string { return k8s.VerifInjFiles(verifio.KV(f)) },
-		"tmpl":     func(f []string) string { return "-" },
-		"nm":       func(f []string) string { return configs.VerifName(verifio.KV(f)) },
-		"injwf":    func(f []string) string { return k8s.VerifInjWf(verifio.KV(f)) },
-		"wf":       func(f []string) string { return k8s.VerifWf(verifio.KV(f)) },
-		"inj":      func(f []string) string { return k8s.VerifInj(verifio.KV(f)) },
-		"re":       func(f []string) string { return verifio.VerifRe(verifio.KV(f)) },
-		"lex":      func(f []string) string { return verifio.VerifLex(verifio.KV(f)) },
+		"arb":       func(f []string) string { return k8s.VerifArb(verifio.KV(f)) },
+		"polst":     func(f []string) string { return k8s.VerifPolicyStatus(verifio.KV(f)) },
+		"eps":       func(f []string) string { return k8s.VerifEps(verifio.KV(f)) },
+		"reseps":    func(f []string) string { return k8s.VerifResEps(verifio.KV(f)) },
+		"refs":      func(f []string) string { return k8s.VerifRefs(verifio.KV(f)) },
+		"crash":     func(f []string) string { return k8s.VerifCrash(verifio.KV(f)) },
+		"lbc":       func(f []string) string { return k8s.VerifLbc(verifio.KV(f)) },
+		"cls":       func(f []string) string { return k8s.VerifClass(verifio.KV(f)) },
+		"injlist":   func(f []string) string { return k8s.VerifInjList(verifio.KV(f)) },
+		"injbase":   func(f []string) string { return k8s.VerifInjBase(verifio.KV(f)) },
+		"injfiles":  func(f []string) string { return k8s.VerifInjFiles(verifio.KV(f)) },
+		"tmpl":      func(f []string) string { return "-" },
+		"tmplsites": func(f []string) string { return "-" },
+		"nm":        func(f []string) string { return configs.VerifName(verifio.KV(f)) },
+		"injwf":     func(f []string) string { return k8s.VerifInjWf(verifio.KV(f)) },
+		"wf":        func(f []string) string { return k8s.VerifWf(verifio.KV(f)) },
+		"inj":       func(f []string) string { return k8s.VerifInj(verifio.KV(f)) },
+		"re":        func(f []string) string { return verifio.VerifRe(verifio.KV(f)) },
+		"lex":       func(f []string) string { return verifio.VerifLex(verifio.KV(f)) },
 	})
 }
